@@ -189,7 +189,11 @@ Faults(T) ==
         \cup {F(Glue([p EXCEPT !.qs = <<QM>> \o CHECKSUM \o <<EQ>> \o c]), "InvalidQualifier", "malformed checksum")
                 : c \in {<<97>>, <<97,58,48>>, <<97,58,120,120>>, <<97,58,48,48,44,65,58,49,49>>, <<97,58,48,48,44>>, <<97,58,48,48,44,98>>,
                          \* algorithm repeated in another case, non-ASCII: "AE':00,ae':11" (E' = U+00C9) and "DZ:00,dz:11" (U+01C5 / U+01C6)
-                         <<65,201,58,48,48,44,97,233,58,49,49>>, <<453,58,48,48,44,454,58,49,49>>}})
+                         <<65,201,58,48,48,44,97,233,58,49,49>>, <<453,58,48,48,44,454,58,49,49>>,
+                         \* the same algorithm twice in the same (canonical) spelling, adjacent and not: "a:00,a:ff"  "a:00,b:11,a:22"
+                         <<97,58,48,48,44,97,58,102,102>>, <<97,58,48,48,44,98,58,49,49,44,97,58,50,50>>,
+                         \* non-ASCII capital before an ASCII capital: "E'B:00,e'b:11"
+                         <<201,66,58,48,48,44,233,98,58,49,49>>}})
 \* two faults at once: rejection demanded, class free
 DoubleFaults(T) ==
   LET p == CanonParts(T) IN
